@@ -4,7 +4,9 @@ import json
 import numpy as np
 
 from .. import proxies, runlevel, wf, wfcheck
-from ..core import Check, MachineryError, repo_setup
+from ..core import Check, MachineryError, repo_setup, VERIF
+
+VERIF_SPEC = VERIF / "spec"
 
 LEVEL = "model_checking"
 TOL = 1e-12
@@ -62,6 +64,25 @@ def run(chk: Check):
                 "INVARIANT SplitJoin\nCHECK_DEADLOCK FALSE\n" % (7 if big else 6), name="Batching")
     if r.violated:
         raise MachineryError(f"Batching.tla violates its own theorem {r.violated_name}")
+    # the arithmetic core of BatchingIsIdentity for ALL N and batch counts: TLAPS proof (spec/BatchingProof.tla), re-checked
+    # here in a scratch copy; a prover time-out under load is recorded, not an alarm (TLC's bounded check above stands)
+    import shutil
+    import subprocess
+    pd_ = chk.scratch("tlaps")
+    shutil.copy(str(VERIF_SPEC / "tlaps" / "BatchingProof.tla"), str(pd_ / "BatchingProof.tla"))
+    proved = None
+    if shutil.which("tlapm"):
+        for extra in ([], ["--stretch", "4"]):
+            try:
+                pr = subprocess.run(["tlapm", "--toolbox", "0", "0", *extra, "BatchingProof.tla"], cwd=str(pd_), capture_output=True, text=True,
+                                    timeout=900)
+                m_ = __import__("re").search(r"All (\d+) obligations proved", pr.stdout + pr.stderr)
+                if m_:
+                    proved = int(m_.group(1))
+                    break
+            except subprocess.TimeoutExpired:
+                pass
+    chk.note("tlaps_batching_roundtrip_obligations_proved", proved if proved is not None else "not re-checked in this run (prover unavailable or timed out)")
     rng = np.random.default_rng(1400 + chk.seed)
     reqs = [{"id": 1, "n": 4, "all": big, "picks": [int(x) for x in rng.integers(0, 1000, size=3)]},
             {"id": 2, "n": 6, "all": False, "picks": [int(x) for x in rng.integers(0, 1000, size=6 if big else 2)]}]
